@@ -269,6 +269,22 @@ func directedPeg() []hist {
 		h.add("tx lock 3 1 %s 5 rowan 1", low)                                  // fee below the floor
 		hs = append(hs, h)
 	}
+	// capitalisations and prefixes of a pegged symbol: every denomination the bridge mints for a lock claim is a pegged
+	// token of its own (exact string): not lockable, burnable by its holder
+	{
+		var h hist
+		stdSetup(&h, []int64{50, 50}, nil, "0,1")
+		h.add("fund 4 ceth 1000000000000000000")
+		for i, sym := range []string{"usdt", "USDT", "usd", "usdtx", "Usdt", "cusdt", "ETH", "eth"} {
+			h.add("tx claim 0 1 %d %s 4 100000 %s %s 2", 950+i, snd0, sym, symToken(sym))
+			h.add("tx claim 1 1 %d %s 4 100000 %s %s 2", 950+i, snd0, sym, symToken(sym))
+		}
+		for _, d := range []string{"cUSDT", "cusdt", "cusd", "cusdtx", "cUsdt", "ccusdt", "cETH", "ceth", "cUSD", "cusdT"} {
+			h.add("tx lock 4 1 %s 10 %s %s", low, d, gasCost)
+			h.add("tx burn 4 1 %s 10 %s %s", low, d, gasCost)
+		}
+		hs = append(hs, h)
+	}
 	// ceth funded at genesis (not a peggy token): lock of ceth with the receiver unset panics (duplicate denom)
 	{
 		var h hist
@@ -342,12 +358,28 @@ func randomHistory(rng *Rng, profile string) hist {
 		wls = "0,1"
 	}
 	stdSetup(&h, powers, bonded, wls)
-	if profile == "peg" && nv == 2 && wls == "0,1" {
-		for i, c := range []string{"4 %s eth " + tok0 + " 2", "5 %s usdc " + tok1 + " 2", "4 %s dai " + tok1 + " 2"} {
-			if rng.Chance(3, 4) {
+	var held []holding
+	bootstrap := profile == "peg" && nv == 2 && wls == "0,1"
+	if bootstrap {
+		syms := []string{"eth", "usdc", "dai"}
+		if rng.Chance(2, 3) {
+			// symbols that differ in case only, or are prefixes of one another, or begin with the pegged prefix
+			fam := caseFamilies[rng.Intn(len(caseFamilies))]
+			syms = nil
+			for k := 2 + rng.Intn(3); k > 0; k-- {
+				syms = append(syms, fam[rng.Intn(len(fam))])
+			}
+			if rng.Bool() {
+				syms = append(syms, "eth")
+			}
+		}
+		for i, sym := range syms {
+			if rng.Chance(5, 6) {
+				recv := 4 + rng.Intn(3)
 				amt := new(big.Int).Add(rng.Amount(75), bigPow(10, 19)).String()
-				h.add("tx claim 0 1 %d %s "+c, 900+i, snd0, amt)
-				h.add("tx claim 1 1 %d %s "+c, 900+i, snd0, amt)
+				h.add("tx claim 0 1 %d %s %d %s %s %s 2", 900+i, snd0, recv, amt, sym, symToken(sym))
+				h.add("tx claim 1 1 %d %s %d %s %s %s 2", 900+i, snd0, recv, amt, sym, symToken(sym))
+				held = append(held, holding{recv, "c" + sym})
 			}
 		}
 	}
@@ -355,7 +387,7 @@ func randomHistory(rng *Rng, profile string) hist {
 		if rng.Chance(2, 3) {
 			h.add("fund %d rowan %s", a, rng.Amount(80))
 		}
-		if rng.Chance(2, 3) {
+		if bootstrap || rng.Chance(2, 3) {
 			h.add("fund %d ceth %s", a, new(big.Int).Add(rng.Amount(70), bigPow(10, 18)))
 		}
 	}
@@ -377,6 +409,10 @@ func randomHistory(rng *Rng, profile string) hist {
 			recv := 3 + rng.Intn(bNAccts-3)
 			amount := rng.Amount(100).String()
 			sym := symPool[rng.Intn(3)]
+			if rng.Chance(1, 6) {
+				fam := caseFamilies[rng.Intn(len(caseFamilies))]
+				sym = fam[rng.Intn(len(fam))]
+			}
 			typ := 2
 			if sym == "rowan" {
 				typ = 1
@@ -445,7 +481,7 @@ func randomHistory(rng *Rng, profile string) hist {
 			}
 			h.add("val %d %d %s", i, p, b2s(!rng.Chance(1, 3)))
 		default:
-			randomPegOp(rng, &h)
+			randomPegOp(rng, &h, held)
 		}
 	}
 	return h
@@ -579,7 +615,38 @@ func sp(rng *Rng, alias int, den int) string {
 	return fmt.Sprint(alias)
 }
 
-func randomPegOp(rng *Rng, h *hist) {
+// claim symbols whose pegged denominations collide case-insensitively or by prefix with one another, or start with the
+// pegged prefix themselves
+var caseFamilies = [][]string{
+	{"usdt", "USDT", "Usdt", "uSDT", "usd", "usdtx", "cusdt"},
+	{"eth", "ETH", "Eth", "et", "ceth"},
+	{"dai", "DAI", "Dai", "daix", "cc", "cdai"},
+}
+
+// holding: an account that was credited a pegged denomination by the bootstrap claims of this history
+type holding struct {
+	acct  int
+	denom string
+}
+
+func symToken(sym string) string {
+	if strings.ToLower(sym) == "eth" {
+		return tok0
+	}
+	return tok1
+}
+
+func randomPegOp(rng *Rng, h *hist, held []holding) {
+	if len(held) > 0 && rng.Chance(2, 5) {
+		// a holder locks or burns a denomination the bridge minted for it
+		x := held[rng.Intn(len(held))]
+		kind := "burn"
+		if rng.Chance(2, 5) {
+			kind = "lock"
+		}
+		h.add("tx %s %d 1 %s %d %s %s", kind, x.acct, ethSpelling(rng, ethBases[rng.Intn(len(ethBases))]), 1+rng.Intn(1000), x.denom, gasCost)
+		return
+	}
 	signerN := 3
 	if rng.Chance(1, 8) {
 		signerN = 4 + rng.Intn(3)
